@@ -69,12 +69,14 @@ fn worlds(thorough: bool) -> Vec<(&'static str, &'static str)> {
             "exported-resource",
             "package t:c33;\n\ninterface i {\n  record r {\n    a: u32,\n    b: string,\n  }\n  resource thing {\n    constructor(a: u32);\n    get: func() -> r;\n  }\n  f: func(x: r) -> option<r>;\n}\n\nworld w {\n  export i;\n}\n",
         ),
+    ];
+    if thorough {
+        v.push(
         (
             "two-interfaces",
             "package t:c33;\n\ninterface a {\n  enum e {\n    x,\n    y,\n  }\n  variant v {\n    n,\n    s(string),\n  }\n  f: func(e: e) -> v;\n}\n\ninterface b {\n  use a.{e};\n  flags fl {\n    p,\n    q,\n  }\n  g: func(x: list<e>, y: fl) -> result<u64, string>;\n}\n\nworld w {\n  import a;\n  import b;\n  export b;\n  export run: func();\n}\n",
-        ),
-    ];
-    if thorough {
+        )
+        );
         v.push((
             "imported-resource",
             "package t:c33;\n\ninterface i {\n  resource thing {\n    constructor(a: u32);\n    get: func() -> tuple<u32, option<string>>;\n    make: static func() -> thing;\n  }\n  f: func(x: borrow<thing>) -> own<thing>;\n}\n\nworld w {\n  import i;\n  export h: func(x: f32) -> f64;\n}\n",
